@@ -95,6 +95,22 @@ def render_checks(E, what, fn, out, use_color, props, known=(), nbs=(), word_dif
     return text
 
 
+def _reverse_mapping_diffs(base, diff):
+    from nbdime.diff_format import DiffEntry
+    out = []
+    for e in diff:
+        if e["op"] == "patch":
+            e2 = DiffEntry(e)
+            sub = base[e["key"]]
+            e2["diff"] = _reverse_mapping_diffs(sub, e["diff"]) if isinstance(sub, (dict, list)) else list(e["diff"])
+            out.append(e2)
+        else:
+            out.append(e)
+    if isinstance(base, dict):
+        out.reverse()
+    return out
+
+
 def make_render_diff(templates, renderer="git", lo=0, hi=64, colors=(0, 1), words=(0,),
                      actions="ACTIONS_PAIR", extras=False, sym=("ec", "md"), props=("C16",), known=()):
     acts = getattr(fam_nbdiff, actions)
@@ -144,6 +160,14 @@ def make_render_diff(templates, renderer="git", lo=0, hi=64, colors=(0, 1), word
         if c13:
             E.check("render-leaves-notebook-unchanged", json_identical(a, sa))
             E.check("render-leaves-diff-unchanged", json_identical(d, sd))
+            # the same diff with the entries of every object-level diff in the
+            # opposite order (a valid diff: object entries are unordered)
+            drev = _reverse_mapping_diffs(a, d)
+            srev = snapshot(drev)
+            cfg.out = io.StringIO()
+            render_checks(E, "diff", lambda: pretty_print_notebook_diff("a.ipynb", "b.ipynb", a, drev, cfg),
+                          cfg.out, use_color, props, known, (a, b))
+            E.check("render-leaves-reordered-diff-unchanged", json_identical(drev, srev))
         # the notebook itself
         cfg2, out2, ignored2, use_color2 = cfg, io.StringIO(), ignored, use_color
         cfg.out = out2
